@@ -427,6 +427,68 @@ func genAsyncCase(c *corr.Ctx) *AsyncCase {
 	return ac
 }
 
+// exhaustiveAsync enumerates every well-formed harness schedule of exactly `length` operations over
+// {push ok, push failing, start, exec, closebegin, closeend}: all placements of Start, Close (begin /
+// end separately, so pushes fall inside the Close window) and an error relative to the pushes.
+func exhaustiveAsync(c *corr.Ctx, size int, length int, onErrBlocks bool) {
+	kinds := []string{"push", "pushfail", "start", "exec", "closebegin", "closeend"}
+	idx := make([]int, length)
+	for {
+		ac := &AsyncCase{Kind: "async", Size: size, OnErrBlocks: onErrBlocks}
+		id := 0
+		started, closing, ok := false, false, true
+		for _, k := range idx {
+			switch kinds[k] {
+			case "push":
+				id++
+				ac.Ops = append(ac.Ops, AOp{K: "push", ID: id})
+			case "pushfail":
+				id++
+				ac.Ops = append(ac.Ops, AOp{K: "push", ID: id, Fails: true})
+			case "start":
+				if started {
+					ok = false
+				}
+				started = true
+				ac.Ops = append(ac.Ops, AOp{K: "start"})
+			case "exec":
+				ac.Ops = append(ac.Ops, AOp{K: "exec"})
+			case "closebegin":
+				if closing {
+					ok = false
+				}
+				closing = true
+				ac.Ops = append(ac.Ops, AOp{K: "closebegin"})
+			case "closeend":
+				if !closing {
+					ok = false
+				}
+				closing = false
+				ac.Ops = append(ac.Ops, AOp{K: "closeend"})
+			}
+		}
+		if ok && !enough() {
+			if closing {
+				ac.Ops = append(ac.Ops, AOp{K: "closeend"})
+			}
+			guarded(c, ac, "internal/asyncprocessor", func() { runAsyncDet(c, ac, fmt.Sprintf("async-exh-%d-%d", size, length)) })
+			c.Dist(fmt.Sprintf("async-det exhaustive size=%d len=%d", size, length))
+		}
+		i := length - 1
+		for i >= 0 {
+			idx[i]++
+			if idx[i] < len(kinds) {
+				break
+			}
+			idx[i] = 0
+			i--
+		}
+		if i < 0 {
+			return
+		}
+	}
+}
+
 // ---- concurrent stress on the real Processor ---------------------------------------------------
 
 // runConcAsync: producers push callbacks into a running Processor, a closer calls Close.  The
